@@ -153,6 +153,19 @@ theorem restart_spec (reject : Bool) (db : Db) (tv0 cli : TV)
       have : cli.any (fun p => p.1 == r.1) = true := (any_key cli r.1).2 (by simpa [keys, e] using ha)
       simp [this] at hrf
 
+/-- **Command-line precedence**, spelled out: after the restart a variable given on the restart
+command line has the command-line value, any other variable has exactly its previous value. -/
+theorem cli_precedence (reject : Bool) (db : Db) (tv0 cli : TV)
+    (hdb : (keys db).Nodup) (hsub : ∀ k ∈ keys db, k ∈ keys tv0)
+    (hnd : (keys tv0).Nodup) (hst : ∀ p ∈ tv0, Storable p.2) :
+    ∃ db' tv1, putDb db tv0 = some db' ∧ restore reject db' cli = .ok tv1 ∧
+      (∀ k v, lookup cli k = some v → lookup tv1 k = some v) ∧
+      (∀ k, lookup cli k = none → lookup tv1 k = lookup tv0 k) := by
+  obtain ⟨db', tv1, h1, h2, h3, _⟩ := restart_spec reject db tv0 cli hdb hsub hnd hst
+  refine ⟨db', tv1, h1, h2, ?_, ?_⟩
+  · intro k v hk; rw [h3 k, hk]; rfl
+  · intro k hk; rw [h3 k, hk]; rfl
+
 /-- **Any number of restarts.**  First start with variables `tv0`, then restarts with command
 lines `clis`: if every value involved is storable, every restart succeeds and in the end each
 variable has exactly the value of the last command line that gave it, else the value it was
